@@ -69,6 +69,6 @@ Definition entry_ok (sc : list xfer) (e : aentry) : Prop :=
   | Some ds =>
     firstn (nslots (a_prm e)) (skipn (a_start e) sc) = map XData ds /\
     fits ds (slots (a_prm e)) /\
-    item_view (a_item e) = frame_item (a_prm e) ds
+    item_view (a_item e) = frame_item (a_prm e) ds /\ item_view (a_item e) <> VPanic
   | None => exists c, a_item e = IErr c
   end.
